@@ -802,3 +802,22 @@ func ruleJSONOmitEmpty(c *Ctx, r *Rep) {
 	}
 	r.Ok("fields-scanned", "", "the fields of the hashed and compared types were looked at", sprintf("%d", n))
 }
+
+func init() {
+	register(&Rule{Name: "RDN-VALUE-KIND", Floor: 1, Run: ruleRdnValueKind,
+		Doc: "the value of a subject attribute is handed to the encoder as a string or a byte string (the encoder then chooses PrintableString or UTF8String from the text), never wrapped in a pre-chosen ASN.1 string type"})
+}
+
+// ruleRdnValueKind re-uses RAWDN and keeps its attribute-value-kind obligations only (the carried issuer name, RAWDN's
+// known finding, belongs to the chain property).
+func ruleRdnValueKind(c *Ctx, r *Rep) {
+	sub := RunRule(c, rules["RAWDN"])
+	for _, o := range sub.Obs {
+		if strings.HasPrefix(o.Key, "attribute-value-kind|") {
+			r.Obs = append(r.Obs, Obligation{Rule: r.rule, Key: o.Key, Pos: o.Pos, Expected: o.Expected, Found: o.Found, Status: o.Status})
+		}
+		if strings.HasPrefix(o.Key, "anchor:") {
+			r.Undecided(o.Key, o.Pos, o.Found)
+		}
+	}
+}
